@@ -229,7 +229,26 @@ def check(P: Project, R: Report) -> None:
             return "main:" + subst_text(call.args[0], st)
         if nm.endswith((".start_soon", ".create_task", ".ensure_future", ".spawn")):
             return "spawn"
+        h_ = helpers.get(nm[5:]) if nm.startswith("self.") else None
+        if h_ is not None and call.args:
+            # a delivery helper of the router: it counts as the delivery only if every way through it delivers
+            return ("main:" if helper_delivers(h_) else "main-maybe:") + subst_text(call.args[0], st)
         return None
+
+    from ..roles import self_closure
+
+    ms_ = P.methods(_stdio.client(P))
+    direct_senders = {f.name for f in ms_.values() if any(isinstance(x, ast.Call) and call_name(x) in incoming_send_calls(P, _stdio.client(P)) for x in walk_local(f.node))}
+    helpers = {n_: g_ for n_, g_ in ms_.items() if g_ is not rt and n_ in direct_senders and n_ in self_closure(P, _stdio.client(P), rt)}
+    _hd = {}
+
+    def helper_delivers(h_) -> bool:
+        if h_.name not in _hd:
+            hp = [p_ for p_ in h_.positional_params() if p_ != "self"]
+            ha, ho = run_paths(h_.node, event_of=lambda c_, st_, an_: ("main:" + subst_text(c_.args[0], st_)) if call_name(c_) in incoming_send_calls(P, _stdio.client(P)) and c_.args else None, fallible_pred=would_block)
+            ends_ = [st_ for st_, _n in ho.ret] + list(ho.normal)
+            _hd[h_.name] = bool(ends_) and bool(hp) and all([e for e in st_.events if e.startswith("main:")] == [f"main:{hp[0]}"] for st_ in ends_) and not any(t_ == "anyio.WouldBlock" for _s, t_, _n in ho.exc)
+        return _hd[h_.name]
 
     # a full main stream is an ordinary schedule (the consumer is momentarily behind), not a fault: a non-blocking put
     # on the main stream has a WouldBlock edge, and what the router does on it is part of the routing
@@ -252,10 +271,14 @@ def check(P: Project, R: Report) -> None:
         notes = [e for e in st.events if e.startswith("notify:")]
         if f"{IDN} is None" in st.lits:
             seen.add("notification")
-            R.ob("R4", "notification: offered on the notification stream and delivered on the main stream", mains == [f"main:{mp}"] and notes == [f"notify:{mp}"], rt.where, f"events {list(st.events)}", sample=f"R4 id None → {list(st.events)}")
+            maybe = [e for e in st.events if e.startswith("main-maybe:")]
+            R.ob("R4", "notification: offered on the notification stream and delivered on the main stream", mains == [f"main:{mp}"] and notes == [f"notify:{mp}"] and not maybe, rt.where,
+                 f"events {list(st.events)}" + (f": the delivery helper {sorted(helpers)} can return without having delivered (full main stream)" if maybe else ""), sample=f"R4 id None → {list(st.events)}")
         elif f"{IDN} is not None" in st.lits:
             seen.add("response")
-            R.ob("R4", "message with id: delivered on the main stream exactly once", mains == [f"main:{mp}"] and not notes, rt.where, f"events {list(st.events)}")
+            maybe = [e for e in st.events if e.startswith("main-maybe:")]
+            R.ob("R4", "message with id: delivered on the main stream exactly once", mains == [f"main:{mp}"] and not notes and not maybe, rt.where,
+                 f"events {list(st.events)}" + (f": the delivery goes through {sorted(helpers)} which has a way out without delivering (a full main stream: the non-blocking put's WouldBlock is absorbed) — a response behind a burst of traffic is dropped before any waiter sees it" if maybe else ""))
         else:
             R.ob("R4", "every routing path tests the id", False, rt.where, f"literals {sorted(st.lits)}")
         R.ob("R4", "no task spawned on the delivery path", "spawn" not in st.events, rt.where, "")
